@@ -100,7 +100,12 @@ def run_sp(case, bct, REC):
             trs = [None]
         if 'log' in trs and L.max() > 1:   # the log transform is documented for weights in (0,1]
             trs = [t for t in trs if t != 'log']
-        for tr in trs:
+        # integer lengths are naturally held in integer arrays: the same values, same demands (also under 'inv',
+        # where the result cannot be held in the input's dtype)
+        variants = [(tr, None) for tr in trs]
+        if sc == 'int' and not case.get('big') and n <= 12:
+            variants += [('inv', None), (None, np.int64), ('inv', np.int64), ('inv', np.int32)]
+        for tr, dt in variants:
             REC.tag(PROP, 'exec')
             with np.errstate(all='ignore'):
                 if tr is None:
@@ -110,9 +115,11 @@ def run_sp(case, bct, REC):
                 else:
                     E = np.where(A != 0, -np.log(np.where(A != 0, L, 1)), np.inf)
             D = O.floyd(E, absent_is_zero=False)
-            ok, res = call(REC, PROP, 'distance_wei_floyd', bct.distance_wei_floyd, L, transform=tr)
+            ok, res = call(REC, PROP, 'distance_wei_floyd', bct.distance_wei_floyd, L if dt is None else L.astype(dt), transform=tr)
             if not ok:
                 continue
+            if dt is not None:
+                REC.tag(PROP, 'class:integer_dtype')
             SPL, hops, Pmat = res
             bad = None
             bad_empty = None
@@ -152,10 +159,12 @@ def run_sp(case, bct, REC):
                         bad = bad or {'s': s, 't': t, 'path': seq, 'why': why}
                     if len(seq) >= 3:
                         multi = True
-            det = {'L': L, 'transform': tr}
+            det = {'L': L, 'transform': tr, 'dtype': 'float64' if dt is None else np.dtype(dt).name}
             # input class: a zero-length connection (weight exactly 1 under the log transform)
             # or: some pair has minimum-length routes with different hop counts (ties, incl. rounding-level ties)
-            if bool(np.any(E[np.isfinite(E)] == 0)):
+            if dt is not None:
+                cls = ('integer_dtype',)
+            elif bool(np.any(E[np.isfinite(E)] == 0)):
                 cls = ('zero_length_edge',)
             elif case.get('big'):
                 cls = ('one_decimal_20_to_40_nodes',) if sc == 'decimal' else ('absorbed_lengths_26_to_40_nodes',)
